@@ -42,7 +42,7 @@ def write_psrfits(path, raw, *, nbits, pol_type, freqs, tbin, scl, offs, wts, ze
     tab = fits.BinTableHDU.from_columns(cols, name="SUBINT")
     t = tab.header
     for k, v in (("INT_TYPE", "TIME"), ("INT_UNIT", "SEC"), ("SCALE", "FluxDen"), ("POL_TYPE", pol_type), ("NPOL", npol), ("TBIN", float(tbin)), ("NBIN", 1),
-                 ("NBITS", nbits), ("ZERO_OFF", float(zero_off)), ("SIGNINT", 0), ("NSUBOFFS", 0), ("NCHAN", nchan), ("CHAN_BW", foff if chan_bw is None else float(chan_bw)), ("NSBLK", nsblk),
+                 ("NBITS", nbits), ("ZERO_OFF", zero_off if isinstance(zero_off, int) else float(zero_off)), ("SIGNINT", 0), ("NSUBOFFS", 0), ("NCHAN", nchan), ("CHAN_BW", foff if chan_bw is None else float(chan_bw)), ("NSBLK", nsblk),
                  ("NSTOT", nsub * nsblk if nstot is None else int(nstot))):
         t[k] = v
     fits.HDUList([pri, tab]).writeto(path, overwrite=True)
